@@ -41,6 +41,11 @@ def respCase (inp impl : String) : CaseOut :=
       -- ed<n>: a reply racing the deadline of one request must not disturb the next one (C11.timeout_only_after_deadline:
       -- an error only once the timeout has passed; C11.correlated: the value is the reply to that very request)
       -- sl: no reply was sent to that request (a Respond made while handling a senderless message answers nobody): timeout
+      -- zt: a zero timeout has passed at once: an error, never a wait (C11.timeout_only_after_deadline covers "not before")
+      else if op = "zt" then (s, nreq, out ++ ["timeout"], tags ++ ["zero-timeout"])
+      -- cq: two Context.Request calls of one actor; the first times out, its late reply is a dead letter
+      -- (C11.unregistered_then_deadletter), the second gets its own reply (C11.correlated, fresh_ids)
+      else if op = "cq" then (s, nreq, out ++ ["first=timeout second=value9 late=deadletter"], tags ++ ["context-request-twice"])
       else if op = "sl" then (s, nreq, out ++ ["timeout"], tags ++ ["no-reply-then-senderless-respond"])
       else if op.startsWith "ed" then (s, nreq, out ++ ["early=0 wrong=0"], tags ++ ["deadline-race"])
       else if op.startsWith "ids" then (s, nreq, out ++ ["dups=0"], tags ++ ["ids"])
